@@ -1,6 +1,7 @@
 import Scico.Common.Wire
 import Scico.Model.Driver
 import Scico.Proofs.DriverSpec
+import Scico.Proofs.DriverClockSpec
 open Lean Scico.Wire Scico.Driver Scico.Driver.Spec
 
 /-! Line-protocol driver of `Model/Driver` (property C15).  Labels are strings. -/
@@ -82,7 +83,13 @@ def timerSession (cfg : Cfg String) (calls : List TCall) :
       (m :: ms, s :: ss, r.1.store.keys :: ks, Json.null :: xs)
     | .elapsed t l tot :: rest =>
       let m := optToInt (T.elapsed l tot t)
-      let s := optToInt (specElapsed cfg pre l tot t)
+      -- tick-counting specification, and the gap-summing one (integer clock) which must agree with it
+      let s1 := optToInt (specElapsed cfg pre l tot t)
+      let preZ : List (Clock.Call String Int) := pre.map (fun c => ⟨(c.time : Int), c.op, c.arg⟩)
+      let s2 : Int := match Clock.specElapsed cfg preZ l tot (t : Int) with
+        | some v => v
+        | none => -1
+      let s := if s1 == s2 then s1 else -7
       let (ms, ss, ks, xs) := go T pre rest
       (m :: ms, s :: ss, T.store.keys :: ks, Json.null :: xs)
     | .str t :: rest =>
@@ -95,6 +102,47 @@ def timerSession (cfg : Cfg String) (calls : List TCall) :
       let (ms, ss, ks, xs) := go T pre rest
       ((if okSpec then 0 else -2) :: ms, 0 :: ss, T.store.keys :: ks,
         jObj [("rows", jArr (rows.map jStrRow)), ("pinned_ok", jB pinned)] :: xs)
+  go T0 [] calls
+
+
+/-! ### timer histories on an integer-scaled real clock (`Scico.Driver.Clock` at `τ = Int`) -/
+
+inductive ZCall where
+  | mut (c : Clock.Call String Int)
+  | elapsed (t : Int) (label : Option String) (total : Bool)
+
+def getZCall? (j : Json) : Option ZCall := do
+  let t ← fInt? j "t"
+  let op ← fStr? j "op"
+  match op with
+  | "start" => some (.mut ⟨t, .start, ← fArg? j "arg"⟩)
+  | "stop" => some (.mut ⟨t, .stop, ← fArg? j "arg"⟩)
+  | "reset" => some (.mut ⟨t, .reset, ← fArg? j "arg"⟩)
+  | "elapsed" => some (.elapsed t (← (field? j "arg").bind getOptStr?) (← fBool? j "total"))
+  | "ctx_enter" => do
+    let a ← getAction? (← fStr? j "action")
+    some (.mut ⟨t, if a == .startStop then .start else .stop, ctxArg (← (field? j "arg").bind getOptStr?)⟩)
+  | "ctx_exit" => do
+    let a ← getAction? (← fStr? j "action")
+    some (.mut ⟨t, if a == .startStop then .stop else .start, ctxArg (← (field? j "arg").bind getOptStr?)⟩)
+  | _ => none
+
+def jOptI : Option Int → Json
+  | some v => jI v
+  | none => jS "key"
+
+/-- model and gap-summing specification, call by call -/
+def timerSessionZ (cfg : Cfg String) (calls : List ZCall) : List Json × List Json :=
+  let T0 : Clock.Timer String Int := Clock.Timer.init cfg.init cfg.dflt cfg.all
+  let rec go (T : Clock.Timer String Int) (pre : List (Clock.Call String Int)) : List ZCall → List Json × List Json
+    | [] => ([], [])
+    | .mut c :: rest =>
+      let r := T.apply c
+      let (ms, ss) := go r.1 (pre ++ [c]) rest
+      ((if r.2 then jI 0 else jS "key") :: ms, (if Clock.raisesKey cfg pre c then jS "key" else jI 0) :: ss)
+    | .elapsed t l tot :: rest =>
+      let (ms, ss) := go T pre rest
+      (jOptI (T.elapsed l tot t) :: ms, jOptI (Clock.specElapsed cfg pre l tot t) :: ss)
   go T0 [] calls
 
 /-! ### solve sessions -/
@@ -227,6 +275,11 @@ def handler : Handler := fun op j =>
     let (m, s, ks, xs) := timerSession cfg calls
     some (ok (jObj [("model", jIs m), ("spec", jIs s), ("keys", jArr (ks.map (fun k => jArr (k.map jS)))),
                     ("extra", jArr xs)]))
+  | "timerz" => do
+    let cfg : Cfg String := ⟨← fArg? j "init", ← fStr? j "dflt", ← fStr? j "all"⟩
+    let calls ← (← fList? j "calls").mapM getZCall?
+    let (m, sp) := timerSessionZ cfg calls
+    some (ok (jObj [("model", jArr m), ("spec", jArr sp)]))
   | "session" => do
     let ops ← (← fList? j "ops").mapM getSOp?
     let st ← fNats? j "stepTicks"
